@@ -348,6 +348,18 @@ class Interp(object):
             if pair not in self.U.merges:
                 self.U.merges.append(pair)
 
+    def op_merge_check(self, t, x, strict=True):
+        """The question 'could this be merged?' asked on its own: a query (whatever it answers,
+        nothing changes), remembered like a merge so that the pair meets again after later edits."""
+        try:
+            t.merge_check(x, strict)
+        finally:
+            if kind_of(t) == "sec" and kind_of(x) == "sec" and t is not x:
+                pair = (self.U.index(t), self.U.index(x))
+                if pair not in self.U.merges:
+                    self.U.merges.append(pair)
+                self.U.__dict__.setdefault("checked", []).append(pair + (bool(strict),))
+
     def op_merge_self(self, x):
         x.merge()
 
